@@ -86,6 +86,9 @@ static int snk_octet(void *drv, unsigned char o)
     return 1;
 }
 
+static ByteBuffer ext_bb;
+static ByteBuffer ext_getbuffer(Source *src) { (void)src; return ext_bb; }
+
 void adapter_exec(Ev *ev)
 {
     if (ev_is(ev, "@")) return;
@@ -142,6 +145,11 @@ void adapter_exec(Ev *ev)
         memset(aux, 0xc5, (size_t)(O + R + 2));
         memset(aux + O, 0x5a, (size_t)R);
         ByteBuffer b = BYTE_BUFFER_INIT(aux, (size_t)(O + R + 2), (size_t)(O + R), (size_t)O);
+        if (ev_is(ev, "sstx") || ev_is(ev, "astx") || ev_is(ev, "nstx") || ev_is(ev, "dstx")) {
+            /* sstx/astx/nstx/dstx: the source offers the designated region as its scratch buffer (getbuffer extension) */
+            ext_bb = b;
+            src.ext.getbuffer = ext_getbuffer;
+        }
         if (setjmp(bail) == 0) {
             if (ev_is(ev, "cbc")) rc = sts_cbc(&src, &snk);
             else if (ev_is(ev, "ncbc")) rc = sts_n_cbc(&src, &snk, (size_t)n);
@@ -150,6 +158,10 @@ void adapter_exec(Ev *ev)
             else if (ev_is(ev, "amaux")) rc = sts_atmost_aux(&src, &snk, &b, (size_t)n);
             else if (ev_is(ev, "naux")) rc = sts_n_aux(&src, &snk, &b, (size_t)n);
             else if (ev_is(ev, "daux")) rc = sts_drain_aux(&src, &snk, &b);
+            else if (ev_is(ev, "sstx")) rc = sts_some(&src, &snk);
+            else if (ev_is(ev, "astx")) rc = sts_atmost(&src, &snk, (size_t)n);
+            else if (ev_is(ev, "nstx")) rc = sts_n(&src, &snk, (size_t)n);
+            else if (ev_is(ev, "dstx")) rc = sts_drain(&src, &snk);
             else if (ev_is(ev, "ssts")) rc = sts_some(&src, &snk);
             else if (ev_is(ev, "asts")) rc = sts_atmost(&src, &snk, (size_t)n);
             else if (ev_is(ev, "nsts")) rc = sts_n(&src, &snk, (size_t)n);
